@@ -107,7 +107,7 @@ theorem rt (norm : String → String) : ∀ (g : GoVal) (T : GoTy) (ty : Ty), ha
         | cons _ _ => simp at hl
       refine ⟨⟨.list ety, .seq (payloads ws)⟩, ?_, ?_, fun _ => rfl, matches_refl _⟩
       · simp only [toCtyG, isEmpty_false_of_ne hvs, Bool.false_eq_true, if_false, h5, seqAll_map_ok, listVal,
-          isEmpty_false_of_ne hwne, elemTypeOf_dyn ety hnd heq ws hwne h7]
+          isEmpty_false_of_ne hwne, canListVal, elemTypeOf_dyn ety hnd heq ws hwne h7, Bool.not_true, Bool.false_eq_true]
       · unfold fromCtyP
         simp [GoTy.base, GoTy.isCval, GoTy.depth, wrapPtr, h6, seqAll_map_ok, mapRes]
   | .arr vs, T, ty, hT, hs, hb => by
@@ -135,7 +135,7 @@ theorem rt (norm : String → String) : ∀ (g : GoVal) (T : GoTy) (ty : Ty), ha
         | cons _ _ => simp at hl
       refine ⟨⟨.list ety, .seq (payloads ws)⟩, ?_, ?_, fun _ => rfl, matches_refl _⟩
       · simp only [toCtyG, isEmpty_false_of_ne hvs, Bool.false_eq_true, if_false, h5, seqAll_map_ok, listVal,
-          isEmpty_false_of_ne hwne, elemTypeOf_dyn ety hnd heq ws hwne h7]
+          isEmpty_false_of_ne hwne, canListVal, elemTypeOf_dyn ety hnd heq ws hwne h7, Bool.not_true, Bool.false_eq_true]
       · unfold fromCtyP
         simp [GoTy.base, GoTy.isCval, GoTy.depth, wrapPtr, h6, seqAll_map_ok, mapRes, hpl]
   | .map ks vs, T, ty, hT, hs, hb => by
@@ -162,7 +162,7 @@ theorem rt (norm : String → String) : ∀ (g : GoVal) (T : GoTy) (ty : Ty), ha
         | cons _ _ => simp at hl
       refine ⟨⟨.map ety, .smap ks (payloads ws)⟩, ?_, ?_, fun _ => rfl, matches_refl _⟩
       · simp only [toCtyG, isEmpty_false_of_ne hvs, Bool.false_eq_true, if_false, h5, combAll_map_ok, mapVal,
-          isEmpty_false_of_ne hwne, elemTypeOf_dyn ety hnd heq ws hwne h7, hs.1.1, bne_self_eq_false]
+          isEmpty_false_of_ne hwne, canListVal, elemTypeOf_dyn ety hnd heq ws hwne h7, hs.1.1, bne_self_eq_false, Bool.not_true, Bool.false_eq_true]
       · unfold fromCtyP
         simp [GoTy.base, GoTy.isCval, GoTy.depth, wrapPtr, h6, seqAll_map_ok, mapRes]
   | .nilPtr, T, ty, hT, hs, hb => by
@@ -179,7 +179,7 @@ theorem rt (norm : String → String) : ∀ (g : GoVal) (T : GoTy) (ty : Ty), ha
       all_goals first
         | (simp only [impliedG] at hb; cases hb; rfl)
         | (simp only [impliedG] at hb; split at hb <;> cases hb; rfl)
-        | (obtain ⟨ts, _, _, rfl⟩ := impliedG_struct_inv hb; rfl)
+        | (obtain ⟨_, _, _, rfl⟩ := impliedG_struct_obj hb; rfl)
     unfold fromCtyP
     simp [Value.null, GoTy.base, GoTy.depth, hbase, hdepth, hcv, hnv, wrapPtr]
   | .ptr v, T, ty, hT, hs, hb => by
@@ -199,7 +199,7 @@ theorem rt (norm : String → String) : ∀ (g : GoVal) (T : GoTy) (ty : Ty), ha
     obtain ⟨⟨rfl, hlen⟩, hTZ⟩ := hT
     simp only [rtSide, Bool.and_eq_true, beq_iff_eq] at hs
     obtain ⟨⟨hdist, hnorm⟩, hsZ⟩ := hs
-    obtain ⟨ts, hfields, hne, rfl⟩ := impliedG_struct_inv hb
+    obtain ⟨ts, hfields, hne, rfl⟩ := impliedG_struct_inv hdist hnorm hb
     obtain ⟨fs, e1, e2, e3, e4, hz, hfs⟩ := rtZ norm vs tags tys ts hlen hTZ hsZ hfields
     subst e1 e2 e3 e4
     have hfne : tg fs ≠ [] := by
@@ -301,11 +301,13 @@ theorem impliedG_noPanic (norm : String → String) (ext : Bool) : ∀ (T : GoTy
     · cases h : impliedG norm ext e <;> simp_all [Res.isPanic]
     · rfl
   | .struct tags tys => by
-    have := combAll_isPanic _ (impliedFields_noPanic norm ext tags tys)
+    have := combAll_isPanic _ (impliedFields_noPanic norm ext (effTags tags) tys)
     simp only [impliedG]
+    unfold impliedStruct
+    simp only []
     split; · rfl
     split; · rfl
-    cases h : combAll (impliedFields norm ext tags tys) <;> simp_all [Res.isPanic]
+    cases h : combAll (impliedFields norm ext (effTags tags) tys) <;> simp_all [Res.isPanic]
 theorem impliedFields_noPanic (norm : String → String) (ext : Bool) : ∀ (tags : List String) (tys : List GoTy),
     anyPanic (impliedFields norm ext tags tys) = false
   | [], _ => by simp [impliedFields, anyPanic]
